@@ -863,6 +863,12 @@ class TypeQualifier(TypeQualifierBase, metaclass=_TypeQualifier):
 
         if value is None or is_primitive(value) and value._is_uninitialized():
             return intr_op._IntrinsicDeclaration(self, None)
+
+        if is_primitive(_decay(value)):
+            # check that the initial value can be converted to the declared type,
+            # the same way an object constructed outside a synthesizable context does
+            type(self)._Wrapped(_decay(value))
+
         return intr_op._IntrinsicDeclaration(self, value)
 
     @_intrinsic_replacement(__bool__)
@@ -1387,6 +1393,11 @@ class Signal(TypeQualifier):
 
         if value is None or is_primitive(value) and value._is_uninitialized():
             return intr_op._IntrinsicDeclaration(self, None, delayed_init)
+
+        if is_primitive(_decay(value)):
+            # same check as in TypeQualifier._init_replacement
+            type(self)._Wrapped(_decay(value))
+
         return intr_op._IntrinsicDeclaration(self, value, delayed_init)
 
     #
